@@ -31,6 +31,7 @@ use exm_alp::ex_alp::io_utils;
 mod eng_domcyc;
 mod eng_cacheorder;
 mod eng_cachedom;
+mod eng_cachecut;
 mod exgen;
 mod exgen_b;
 
@@ -78,6 +79,7 @@ fn main() {
         "domcyc" => eng_domcyc::run_domcyc(&a),
         "cacheorder" => eng_cacheorder::run_cacheorder(&a),
         "cachedom" => eng_cachedom::run_cachedom(&a),
+        "cachecut" => eng_cachecut::run_cachecut(&a),
         e => { eprintln!("unknown engine {}", e); std::process::exit(2); }
     }
 }
